@@ -6,8 +6,8 @@ from vf import worlds, miniloop, waithook
 from vf.tape import Fail, notrace
 
 PROPERTY = 'C08'
-NSS = ['/', '/a']
-NS_SETS = [['/'], ['/a'], ['/', '/a'], ['/a', '/']]
+NSS = ['/', '/a', '/b']
+NS_SETS = [['/'], ['/a'], ['/', '/a'], ['/a', '/'], ['/a', '/b']]
 
 
 def h(t, part):
@@ -190,7 +190,7 @@ def h(t, part):
                 del ev[:]
                 op = t.choice(6)
                 if op == 0:
-                    ns = NSS[t.choice(2)]
+                    ns = NSS[t.choice(3)]
                     w.take()
                     cb = t.bool()
                     fired = []
@@ -210,7 +210,7 @@ def h(t, part):
                             return Fail('client:bad-namespace-but-sent', '')
                 elif op == 1:
                     # the server ends one namespace
-                    ns = NSS[t.choice(2)]
+                    ns = NSS[t.choice(3)]
                     if ns not in server_view or midbinary:
                         continue        # a server does not interleave other packets with its own attachments
                     w.send(w.P(packet.DISCONNECT, namespace=ns))
@@ -269,7 +269,7 @@ def h(t, part):
             plan['answers'] = 'accept'
             w.take()
             try:
-                w.call(c.connect('http://h', namespaces=list(NSS), wait=wait, wait_timeout=1))
+                w.call(c.connect('http://h', namespaces=['/', '/a'], wait=wait, wait_timeout=1))
             except exceptions.ConnectionError as e2:
                 return Fail('client:reconnect-refused', repr(e2))
             if not wait:
@@ -307,18 +307,18 @@ def parts(tier):
     for a in (False, True):
         for cn in (False, True):
             for wt in (True, False):
-                for f0 in range(4):
+                for f0 in range(5):
                     for f1 in range(3):
                         n = (2 if wt else 1) if tier == 'quick' else (3 if wt else 2)
                         out.append({'async': a, 'classns': cn, 'wait': wt, 'rounds': 2 if wt else 1, 'n': n, 'first': [f0, f1]})
     return out
 
 
-CHECKS = [dict(name='client-life', fn=h, parts=parts, budget={'quick': 80, 'thorough': 1200}, per_path_s=30)]
+CHECKS = [dict(name='client-life', fn=h, parts=parts, budget={'quick': 180, 'thorough': 1200}, per_path_s=30)]
 
 META = dict(
     explanation='Real Client/AsyncClient on the fake engine.io client with the harness as server: connect() with every '
-                'subset/order of two namespaces, auth as nothing / value / callable, wait on and off, every pattern of '
+                'subset/order of two namespaces (and a pair of non-default ones), auth as nothing / value / callable, wait on and off, every pattern of '
                 'accept / refuse / silence per namespace; then a connected life (emit with and without callback on '
                 'connected and unconnected namespaces, the server ending one namespace, half a binary packet, '
                 'disconnect(), transport loss, server close); then a fresh connection into which a late ACK and a stray '
